@@ -34,7 +34,11 @@ ObserveAll(W, ev, keepW, keepA, at) ==
                  IF o.w \notin DOMAIN acc.W
                  THEN Go(i + 1, [acc EXCEPT !.v = @ \cup {V(<<"TOOL">>, at, "observation of a world the contract does not have")}])
                  ELSE LET r == C!ObserveWorld(acc.W[o.w], o, IF o.w = keepW THEN keepA ELSE {}, at)
-                      IN Go(i + 1, [W |-> [acc.W EXCEPT ![o.w] = r.w], v |-> acc.v \cup r.v])
+                          \* a violation showing up in a world the operation did not touch is (also) a
+                          \* violation of clone independence
+                          rv == IF "w" \in DOMAIN ev /\ o.w # ev.w /\ ~("dst" \in DOMAIN ev /\ o.w = ev.dst)
+                                THEN {[x EXCEPT !.p = @ \o <<"C13">>] : x \in r.v} ELSE r.v
+                      IN Go(i + 1, [W |-> [acc.W EXCEPT ![o.w] = r.w], v |-> acc.v \cup rv])
         observed == {ev.obs[i].w : i \in DOMAIN ev.obs}
     IN LET r == Go(1, [W |-> W, v |-> {}]) IN
        [W |-> r.W,
@@ -201,7 +205,7 @@ StepFind(s, ev, at) ==
         \cup If(tag = "p" /\ ~(C!Foreign(w, ky) \/ (ev.fault /\ runs)), {V(<<"C10">>, at, "find panicked without an injected fault")})
     IN Finish(s, [s.W EXCEPT ![ev.w] = f.w], ev, {}, TRUE, ev.w, {}, viol1 \cup f.v, {}, 0, at)
 
-StepClone(s, ev, at) ==
+StepClone0(s, ev, at) ==
     LET w    == s.W[ev.w]
         from == {ev.clones[i][1] : i \in DOMAIN ev.clones}
         to   == {ev.clones[i][2] : i \in DOMAIN ev.clones}
@@ -222,6 +226,10 @@ StepClone(s, ev, at) ==
                    If(~ev.fault, {V(<<"C10", "C11">>, at, "clone panicked without an injected fault")})
               \cup If(~(from \subseteq C!OwnedIds(w)), {V(<<"C04">>, at, "clone cloned something the world does not own")}),
                    to \ SeqSet(ev.drops), ev.zc, at)
+
+StepClone(s, ev, at) ==
+    LET r == StepClone0(s, ev, at) IN
+    [st |-> r.st, v |-> {[x EXCEPT !.p = IF "TOOL" \in SeqSet(@) THEN @ ELSE @ \o <<"C13">>] : x \in r.v}]
 
 StepDropWorld(s, ev, at) ==
     LET w == s.W[ev.w]
@@ -278,6 +286,7 @@ Step(s, ev, at) ==
       [] ev.op = "clear_events"  -> StepClearEvents(s, ev, at)
       [] ev.op = "preset"        -> StepPreset(s, ev, at)
       [] ev.op = "crash"         -> StepCrash(s, ev, at)
+      [] ev.op = "noop"          -> Finish(s, s.W, ev, {}, TRUE, -1, {}, {}, {}, 0, at)
 
 ---------------------------------------------------------------------------
 Init == l = 1 /\ st = EmptySt /\ viol = {}
